@@ -11,7 +11,7 @@ set_option linter.unusedSimpArgs false
 set_option linter.unusedVariables false
 set_option linter.unusedSectionVars false
 
-namespace AurelVerif.C05
+namespace AurelVerif.C05L
 open AurelVerif.Gen.Core AurelVerif.Tensor AurelVerif.CoreTac AurelVerif.C08 AurelVerif.Spec.Covd
 
 variable {K : Type} [Field K]
@@ -149,4 +149,4 @@ theorem s_div_dd_spec (e : Env K) (f : Fin 3 → Fin 3 → K) (b : Fin 3) :
     s_div_dd e f b = divD2 e.gammaup3 (s_covd_dd e f) b := by
   revert b; cases3 <;> (simp only [core_unfold, divD2, Fin.sum_univ_three]; try ring)
 
-end AurelVerif.C05
+end AurelVerif.C05L
